@@ -3,8 +3,36 @@ import IsoMdl.Spec.Device
 /-
 C13 — Device session follows its state machine; every prepared response is retrievable.
 All statements are about `Device` of Model/Session.lean for arbitrary states / operation lists.
+Full strength since the `fix:` commit that stages a response as soon as nothing is left to sign
+(`finalize_if_complete`); before it, `Signing` with no unsigned document was reachable
+(known finding F-C13, now under "fixed").
 -/
 namespace IsoMdl.Session
+
+theorem finalize_st (d : Device) :
+    (∃ s st, d.st = .signing [] s st ∧
+      d.finalizeIfComplete.st = .ready (.ct false d.sess (bump d.encCtr).toNat (.response st s) false)) ∨
+    ((∀ s st, d.st ≠ .signing [] s st) ∧ d.finalizeIfComplete = d) := by
+  unfold Device.finalizeIfComplete
+  cases h : d.st with
+  | awaiting => right; exact ⟨(by intro s st hc; cases hc), rfl⟩
+  | ready m => right; exact ⟨(by intro s st hc; cases hc), rfl⟩
+  | signing p s st =>
+    cases p with
+    | nil => left; exact ⟨s, st, rfl, rfl⟩
+    | cons a l => right; exact ⟨(by intro s' st' hc; cases hc), rfl⟩
+
+theorem finalize_not_stuck (d : Device) : d.finalizeIfComplete.st.stuck = false := by
+  rcases finalize_st d with ⟨s, st, _, h2⟩ | ⟨h1, h2⟩
+  · rw [h2]; rfl
+  · rw [h2]
+    cases h : d.st with
+    | awaiting => rfl
+    | ready m => rfl
+    | signing p s st =>
+      cases p with
+      | nil => exact absurd h (h1 s st)
+      | cons a l => rfl
 
 /-- A signature payload is offered exactly while a prepared response has unsigned documents. -/
 theorem C13_payload_offered_iff (d : Device) :
@@ -19,7 +47,7 @@ theorem C13_payload_offered_iff (d : Device) :
     | cons a l => simp [List.getLast?_isSome]
 
 /-- Each submitted signature is attached, unchanged, to the document whose payload was offered,
-and that document stops being unsigned. -/
+and that document stops being unsigned; when it was the last one the response is ready. -/
 theorem C13_submit_pairs (d : Device) (doc sig : Nat) (p : List Nat) (s : List (Nat × Nat)) (st : Nat)
     (hst : d.st = .signing p s st) (hn : d.getNext = some doc) :
     ((d.submit sig).st = .signing p.dropLast (s ++ [(doc, sig)]) st ∧ p.dropLast ≠ []) ∨
@@ -30,10 +58,15 @@ theorem C13_submit_pairs (d : Device) (doc sig : Nat) (p : List Nat) (s : List (
   simp only at hn
   unfold Device.submit
   rw [hst]
-  simp only [hn]
+  simp only [attach, hn]
   by_cases hl : p.dropLast = []
-  · right; simp [hl]
-  · left; simp [hl]
+  · right; simp [Device.finalizeIfComplete, hl]
+  · left
+    refine ⟨?_, hl⟩
+    unfold Device.finalizeIfComplete
+    cases hd : p.dropLast with
+    | nil => exact absurd hd hl
+    | cons a l => rfl
 
 /-- The response becomes ready exactly when no unsigned document remains after the submission. -/
 theorem C13_ready_iff (d : Device) (sig : Nat) :
@@ -44,15 +77,17 @@ theorem C13_ready_iff (d : Device) (sig : Nat) :
   | awaiting => simp [h]
   | ready m => simp [h]
   | signing p s st =>
-    simp only [h]
+    simp only [attach]
     cases hp : p.getLast? with
     | none =>
       have : p = [] := by simpa using hp
       subst this
-      simp
+      simp [Device.finalizeIfComplete]
     | some doc =>
       simp only
-      by_cases hl : p.dropLast = [] <;> simp [hl]
+      cases hd : p.dropLast with
+      | nil => simp [Device.finalizeIfComplete, hd]
+      | cons a l => simp [Device.finalizeIfComplete, hd]
 
 /-- It is handed out exactly once, after which the device awaits the next request. -/
 theorem C13_retrieve_once (d d' : Device) (m : Msg) (h : d.retrieve = (d', some m)) :
@@ -74,61 +109,139 @@ theorem C13_noops (d : Device) (sig : Nat) :
   · intro h; unfold Device.submit; cases hs : d.st <;> simp_all [DevState.isSigning]
   · intro h; unfold Device.retrieve; cases hs : d.st <;> simp_all [DevState.isReady]
 
-/-- A request that decrypts but is not a valid DeviceRequest leads to a response carrying status
-11 or 12 … -/
+/-- A request that decrypts but is not a valid DeviceRequest leads, at once, to a retrievable
+response carrying status 11 or 12 (and no document). -/
 theorem C13_malformed_request_status (d : Device) (n : Nat) (p : Payload)
     (hp : p = .notCbor ∨ p = .notRequest)
     (hacc : n = (bump d.decCtr).toNat) :
-    ∃ st, (st = 11 ∨ st = 12) ∧ ((d.handleRequest (.ct true d.sess n p false)).1).st = .signing [] [] st := by
+    ∃ st c, (st = 11 ∨ st = 12) ∧
+      ((d.handleRequest (.ct true d.sess n p false)).1).st = .ready (.ct false d.sess c (.response st []) false) ∧
+      ((d.handleRequest (.ct true d.sess n p false)).1).responseReady = true := by
   simp only [Device.handleRequest, accepts, hacc]
   rcases hp with rfl | rfl
-  · exact ⟨11, Or.inl rfl, by simp⟩
-  · exact ⟨12, Or.inr rfl, by simp⟩
+  · exact ⟨11, (bump d.encCtr).toNat, Or.inl rfl, by simp [Device.finalizeIfComplete], by simp [Device.finalizeIfComplete, Device.responseReady]⟩
+  · exact ⟨12, (bump d.encCtr).toNat, Or.inr rfl, by simp [Device.finalizeIfComplete], by simp [Device.finalizeIfComplete, Device.responseReady]⟩
 
-/-- … which becomes retrievable, with that status, after one `submit_next_signature` call
-(whatever bytes are passed): this is what the code does. -/
-theorem C13_error_response_after_submit (d : Device) (s : List (Nat × Nat)) (st sig : Nat)
-    (h : d.st = .signing [] s st) :
-    ∃ c, (d.submit sig).st = .ready (.ct false d.sess c (.response st s) false) := by
-  unfold Device.submit
-  simp [h]
+/-- A response with nothing to sign is retrievable without inventing a signature. -/
+theorem C13_nothing_to_sign_is_ready (d : Device) :
+    (d.prepare []).responseReady = true ∧ (d.prepare []).getNext = none ∧
+    ∃ c, ((d.prepare []).retrieve).2 = some (.ct false d.sess c (.response 0 []) false) := by
+  simp [Device.prepare, Device.finalizeIfComplete, Device.responseReady, Device.getNext, Device.retrieve]
+
+/-- FULL-STRENGTH: in every reachable state of every call sequence, a Signing state has an
+unsigned document (it offers a payload); i.e. the response is ready exactly when no unsigned
+document remains, and nothing is ever stuck waiting for an invented signature. -/
+theorem C13_step_not_stuck (w : World) (op : Op) (h : w.dev.st.stuck = false) :
+    (w.step op).dev.st.stuck = false := by
+  have hwd : ∀ d : Device, (w.withDev d).dev = d := by
+    intro d; unfold World.withDev; split <;> rfl
+  cases op with
+  | newRequest => exact h
+  | handleRequest m =>
+    simp only [World.step, hwd]
+    cases m with
+    | garbage => exact h
+    | noData => exact h
+    | ct fr s n p t =>
+      simp only [Device.handleRequest]
+      split
+      · cases p
+        · exact h
+        · exact finalize_not_stuck _
+        · exact finalize_not_stuck _
+        · exact finalize_not_stuck _
+      · exact h
+  | prepare docs => simp only [World.step, hwd]; exact finalize_not_stuck _
+  | getNext => exact h
+  | submit sig =>
+    simp only [World.step, hwd]
+    unfold Device.submit
+    split
+    · exact finalize_not_stuck _
+    · exact h
+  | responseReady => exact h
+  | retrieve =>
+    simp only [World.step, Device.retrieve]
+    split
+    · rfl
+    · exact h
+  | handleResponse m => exact h
+  | restoreDevice => exact h
+  | restoreReader => exact h
+
+theorem C13_never_stuck (s : Nat) (ops : List Op) : ((World.established s).run ops).dev.st.stuck = false := by
+  have : ∀ (w : World), w.dev.st.stuck = false → (w.run ops).dev.st.stuck = false := by
+    induction ops with
+    | nil => intro w h; exact h
+    | cons op ops ih => intro w h; exact ih _ (C13_step_not_stuck w op h)
+  exact this _ rfl
+
+/-- consequently: in every reachable state a payload is offered iff the state is Signing -/
+theorem C13_signing_iff_offered (s : Nat) (ops : List Op) :
+    ((World.established s).run ops).dev.getNext.isSome = ((World.established s).run ops).dev.st.isSigning := by
+  have h := C13_never_stuck s ops
+  generalize ((World.established s).run ops).dev = d at h
+  unfold Device.getNext DevState.isSigning
+  cases hs : d.st with
+  | awaiting => rfl
+  | ready m => rfl
+  | signing p sg st =>
+    cases p with
+    | nil => simp [hs, DevState.stuck] at h
+    | cons a l => simp [List.getLast?_isSome]
 
 /-- Every transition of every operation is one of the documented ones or a no-op. -/
 theorem C13_refines_diagram (w : World) (op : Op) : Documented w.dev.st (w.step op).dev.st := by
+  have hwd : ∀ d : Device, (w.withDev d).dev = d := by
+    intro d; unfold World.withDev; split <;> rfl
+  have hfin : ∀ d : Device, Documented w.dev.st d.st → Documented w.dev.st d.finalizeIfComplete.st := by
+    intro d hd
+    rcases finalize_st d with ⟨s, st, _, h2⟩ | ⟨_, h2⟩
+    · rw [h2]; exact .respondNow _ _
+    · rw [h2]; exact hd
   cases op with
   | newRequest => exact .refl _
   | handleRequest m =>
+    simp only [World.step, hwd]
     cases m with
     | garbage => exact .refl _
     | noData => exact .refl _
     | ct fr s n p t =>
-      simp only [World.step, Device.handleRequest]
+      simp only [Device.handleRequest]
       split
-      · cases p <;> first | exact .refl _ | exact .malformed _ _
+      · cases p
+        · exact .refl _
+        · simp [Device.finalizeIfComplete]; exact .respondNow _ _
+        · simp [Device.finalizeIfComplete]; exact .respondNow _ _
+        · simp [Device.finalizeIfComplete]; exact .respondNow _ _
       · exact .refl _
-  | prepare docs => exact .prepare _ _
+  | prepare docs =>
+    simp only [World.step, hwd, Device.prepare]
+    cases docs with
+    | nil => simp [Device.finalizeIfComplete]; exact .respondNow _ _
+    | cons a l => simp [Device.finalizeIfComplete]; exact .prepare _ _ (by simp)
   | getNext => exact .refl _
   | submit sig =>
-    have key : Documented w.dev.st (w.dev.submit sig).st := by
-      unfold Device.submit
-      cases hs : w.dev.st with
-      | awaiting => simp only [hs]; rw [← hs]; exact .refl _
-      | ready m => simp only [hs]; rw [← hs]; exact .refl _
-      | signing p s st =>
-        simp only [hs]
-        cases hp : p.getLast? with
-        | none =>
-          have : p = [] := by simpa using hp
-          subst this
-          simp only [List.isEmpty_nil, if_true]
-          exact .complete _ _ _ _ rfl
-        | some doc =>
-          simp only
-          by_cases hl : p.dropLast = []
-          · simp only [hl, List.isEmpty_nil, if_true]; exact .complete _ _ _ _ hl
-          · simp only [List.isEmpty_iff, hl, if_false]; exact .sign _ _ _ _ _ hp hl
-    simp only [World.step]
-    split <;> exact key
+    simp only [World.step, hwd]
+    unfold Device.submit
+    cases hs : w.dev.st with
+    | awaiting => simp only [hs]; rw [← hs]; exact .refl _
+    | ready m => simp only [hs]; rw [← hs]; exact .refl _
+    | signing p s st =>
+      simp only [attach]
+      cases hp : p.getLast? with
+      | none =>
+        have : p = [] := by simpa using hp
+        subst this
+        simp [Device.finalizeIfComplete]; exact .respondNow _ _
+      | some doc =>
+        simp only
+        cases hd : p.dropLast with
+        | nil => simp [Device.finalizeIfComplete]; exact .respondNow _ _
+        | cons a l =>
+          simp only [Device.finalizeIfComplete]
+          rw [← hd]
+          exact .sign _ _ _ _ _ hp (by rw [hd]; simp)
   | responseReady => exact .refl _
   | retrieve =>
     simp only [World.step, Device.retrieve]
@@ -140,39 +253,8 @@ theorem C13_refines_diagram (w : World) (op : Op) : Documented w.dev.st (w.step 
   | restoreDevice => exact .refl _
   | restoreReader => exact .refl _
 
-/-- FULL-STRENGTH claim of the property's last sentence, and of "ready exactly when no unsigned
-document remains": no reachable state is Signing with nothing left to sign.  It is FALSE of the
-code as modelled: -/
-def NeverStuck : Prop :=
-  ∀ (s : Nat) (ops : List Op), ((World.established s).run ops).dev.st.stuck = false
-
-/-- witness: a correctly encrypted request whose plaintext is not CBOR leaves the device in
-Signing with nothing to sign; no payload is offered, it is not ready, nothing can be retrieved. -/
-theorem C13_full_fails : ¬ NeverStuck := by
-  intro h
-  have := h 1 [.handleRequest (.ct true 1 2 .notCbor false)]
-  revert this
-  decide
-
-/-- same witness, spelled out on the API: payload not offered, not ready, retrieve gives nothing. -/
-theorem C13_full_fails_observable :
-    let d := ((World.established 1).run [.handleRequest (.ct true 1 2 .notCbor false)]).dev
-    d.getNext = none ∧ d.responseReady = false ∧ (d.retrieve).2 = none := by decide
-
-/-- what does hold (partial): the only stuck states are those reached by an error response or a
-prepare with zero preparable documents, and one submit call always un-sticks them. -/
-theorem C13_ready_when_nothing_unsigned_partial (d : Device) (sig : Nat) (h : d.st.stuck = true) :
-    (d.submit sig).responseReady = true := by
-  unfold DevState.stuck at h
-  cases hs : d.st with
-  | awaiting => simp [hs] at h
-  | ready m => simp [hs] at h
-  | signing p s st =>
-    cases p with
-    | nil => simp [Device.submit, Device.responseReady, hs]
-    | cons a l => simp [hs] at h
-
-/-- non-vacuity: a two-document response signed in the offered order and retrieved once. -/
+/-- non-vacuity: a two-document response signed in the offered order and retrieved once; an
+error response and an empty response retrievable at once. -/
 example :
     let w := (World.established 3).run [.prepare [4, 9]]
     w.dev.getNext = some 9 ∧
@@ -180,5 +262,9 @@ example :
     ((w.run [.submit 70, .submit 71]).dev.st =
         .ready (.ct false 3 1 (.response 0 [(9, 70), (4, 71)]) false)) ∧
     ((w.run [.submit 70, .submit 71, .retrieve, .retrieve]).dev.st = .awaiting) := by decide
+example :
+    let d := ((World.established 1).run [.handleRequest (.ct true 1 2 .notCbor false)]).dev
+    d.getNext = none ∧ d.responseReady = true ∧ (d.retrieve).2 = some (.ct false 1 1 (.response 11 []) false) := by
+  decide
 
 end IsoMdl.Session
